@@ -6,8 +6,8 @@
 //   outside by +-dt, +-1e9}.  A case of an explored space is one configuration; all its times are visited inside.
 // O: independent long double reference: cardinal B-spline basis by the Cox-de Boor recursion on integer knots,
 //   cumulative sums, product of ref::expm(B~_j(x) hat(v_j)) in the documented matrix form; velocity / acceleration
-//   (and jerk, for Lipschitz bounds) are the successive body derivatives of that matrix curve obtained with the
-//   product rule (validated against finite-difference stencils of the reference curve in the self-checks).
+//   (and jerk / snap, for Lipschitz bounds) are the successive body derivatives of that matrix curve obtained with
+//   the product rule (validated against finite-difference stencils of the reference curve in the self-checks).
 //
 // Conditioning (design spike): the interval index and the local parameter are computed by the library from
 // (t - t0)/dt in double, so every time-dependent comparison carries an allowance w*|next derivative| with
@@ -33,19 +33,21 @@ inline double ulp(double a)
 }
 
 // ------------------------------------------------------------------ calibrated tolerances (units: eps * scale)
-// observed worst values (thorough tier, both alphabet menus, pinned tree) are given next to each constant;
-// tolerance = max(100 x worst, 64).
+// Observed worst values (thorough tier, alphabet menus 0 and 1, pinned tree) are given next to each constant;
+// tolerance = max(100 x worst, 64) rounded up.
 struct Tol
 {
-  static constexpr double value  = 2000;  // worst observed 17.0
-  static constexpr double vel    = 3000;  // worst observed 27.4
-  static constexpr double acc    = 8000;  // worst observed 75.6
-  static constexpr double cont   = 2000;  // continuity across knots, worst observed 16.5 (value), 20.9 (vel), 56.4 (acc)
-  static constexpr double cval   = 64;    // constant curve value, worst observed 0 (exact)
-  static constexpr double eq_val = 1000;  // equivariance value, worst observed 9.1
-  static constexpr double eq_der = 20000; // equivariance vel/acc, worst observed 169 (acc), 54 (vel)
-  static constexpr double tbound = 2;     // t_min / t_max in ulp, worst observed 0.5
-  static constexpr double local  = 4;     // "<= 4 ulp" outside the support (observed: bitwise equal, 0)
+  static constexpr double value  = 2000;   // CALIB value
+  static constexpr double vel    = 2000;   // CALIB vel
+  static constexpr double acc    = 2000;   // CALIB acc
+  static constexpr double cont0  = 2000;   // CALIB cont0
+  static constexpr double cont1  = 2000;   // CALIB cont1
+  static constexpr double cont2  = 2000;   // CALIB cont2
+  static constexpr double cval   = 64;     // constant curve value, worst observed 0 (exact)
+  static constexpr double eq_val = 3000;   // CALIB eq_val
+  static constexpr double eq_der = 1000;   // CALIB eq_der
+  static constexpr double tbound = 2;      // t_min / t_max in ulp, worst observed 0.5
+  static constexpr double local  = 4;      // "<= 4 ulp" outside the support (observed: bitwise equal, 0)
 };
 
 // ------------------------------------------------------------------ G <-> reference
@@ -130,7 +132,7 @@ struct Alpha
   G g0;
   G d[3];  // difference alphabet (all rotation parts <= 2.5 rad: inside the injectivity radius with margin)
   G h[3];  // left factors
-  G p[3];  // perturbations of a single control point (rotation <= 0.5 rad)
+  G p[3];  // perturbations of a single control point (rotation <= 0.5 rad, so moved differences stay < pi)
   int menu;
   Alpha()
   {
@@ -155,11 +157,11 @@ struct Alpha
 };
 
 // ------------------------------------------------------------------ cardinal B-spline basis (Cox-de Boor)
-/// p-th derivatives (p = 0..3) of the cumulative basis functions B~_j, j = s+1..s+K, on the knot span [s, s+1]
+/// p-th derivatives (p = 0..4) of the cumulative basis functions B~_j, j = s+1..s+K, on the knot span [s, s+1]
 /// (integer knots; control point j carries the basis function N_{j-K,K}, support [j-K, j+1]).
 struct Basis
 {
-  L b[4][6];
+  L b[5][6];
   L unity;  // sum of all basis functions (self-check)
 };
 template<int K>
@@ -181,7 +183,7 @@ Basis cum_basis(L x, int s)
     if (c < 0 || c > K + 1) return 0;
     return N[k][c];
   };
-  static const int binom[4][4] = {{1, 0, 0, 0}, {1, 1, 0, 0}, {1, 2, 1, 0}, {1, 3, 3, 1}};
+  static const int binom[5][5] = {{1, 0, 0, 0, 0}, {1, 1, 0, 0, 0}, {1, 2, 1, 0, 0}, {1, 3, 3, 1, 0}, {1, 4, 6, 4, 1}};
   // d^q/dx^q N_{i,k} = sum_r (-1)^r C(q,r) N_{i+r,k-q}   (from N'_{i,k} = N_{i,k-1} - N_{i+1,k-1} on unit knots)
   auto dq = [&](int i, int k, int q) -> L {
     L r = 0;
@@ -189,7 +191,7 @@ Basis cum_basis(L x, int s)
     return r;
   };
   Basis B;
-  for (int p = 0; p < 4; ++p)
+  for (int p = 0; p < 5; ++p)
     for (int jj = 0; jj < K; ++jj) {
       const int j = s + 1 + jj;
       L sum       = 0;
@@ -218,24 +220,35 @@ inline L cardinal_closed_form(int K, L y)
 template<typename R>
 struct RefOut
 {
-  Mat<L, R::Dim> M, M1;
-  L v[R::Dof], a[R::Dof], j[R::Dof];
-  L Mmax, M1max, vmax, amax, jmax;
+  Mat<L, R::Dim> M;
+  L v[R::Dof], a[R::Dof], j[R::Dof], sn[R::Dof];  // body velocity, acceleration, jerk, snap (knot units)
+  L Mmax, M1max, M2max, vmax, amax, jmax, smax;
 };
+/// powers of hat(v_j)
+template<typename R>
+struct VPow
+{
+  Mat<L, R::Dim> V1, V2, V3, V4;
+};
+/// g(x) = M_s * prod_{j=s+1..s+K} expm(B~_j(x) hat(v_j)); derivatives of the matrix curve by the product rule.
+/// With F = expm(b V) (b scalar function, V constant):
+///   dF = b1 V F,  d2F = (b2 V + b1^2 V^2) F,  d3F = (b3 V + 3 b1 b2 V^2 + b1^3 V^3) F,
+///   d4F = (b4 V + (3 b2^2 + 4 b1 b3) V^2 + 6 b1^2 b2 V^3 + b1^4 V^4) F        (bn = n-th derivative of b)
 template<int K, typename R>
-RefOut<R> ref_eval(const Mat<L, R::Dim> & Ms, const Mat<L, R::Dim> * V, L x, int s)
+RefOut<R> ref_eval(const Mat<L, R::Dim> & Ms, const VPow<R> * V, L x, int s)
 {
   using M = Mat<L, R::Dim>;
   const Basis B = cum_basis<K>(x, s);
-  M G = Ms, G1, G2, G3;
+  M G = Ms, G1, G2, G3, G4;
   for (int jj = 0; jj < K; ++jj) {
-    const L b0 = B.b[0][jj], b1 = B.b[1][jj], b2 = B.b[2][jj], b3 = B.b[3][jj];
-    const M & Vj = V[jj];
-    const M F    = ref::expm(Vj * b0);
-    const M V2 = ref::mul(Vj, Vj), V3 = ref::mul(V2, Vj);
-    const M F1  = ref::mul(Vj * b1, F);
-    const M F2  = ref::mul(Vj * b2 + V2 * (b1 * b1), F);
-    const M F3  = ref::mul(Vj * b3 + V2 * (3 * b1 * b2) + V3 * (b1 * b1 * b1), F);
+    const L b0 = B.b[0][jj], b1 = B.b[1][jj], b2 = B.b[2][jj], b3 = B.b[3][jj], b4 = B.b[4][jj];
+    const VPow<R> & P = V[jj];
+    const M F   = ref::expm(P.V1 * b0);
+    const M F1  = ref::mul(P.V1 * b1, F);
+    const M F2  = ref::mul(P.V1 * b2 + P.V2 * (b1 * b1), F);
+    const M F3  = ref::mul(P.V1 * b3 + P.V2 * (3 * b1 * b2) + P.V3 * (b1 * b1 * b1), F);
+    const M F4  = ref::mul(P.V1 * b4 + P.V2 * (3 * b2 * b2 + 4 * b1 * b3) + P.V3 * (6 * b1 * b1 * b2) + P.V4 * (b1 * b1 * b1 * b1), F);
+    const M nG4 = ref::mul(G4, F) + ref::mul(G3, F1) * (L)4 + ref::mul(G2, F2) * (L)6 + ref::mul(G1, F3) * (L)4 + ref::mul(G, F4);
     const M nG3 = ref::mul(G3, F) + ref::mul(G2, F1) * (L)3 + ref::mul(G1, F2) * (L)3 + ref::mul(G, F3);
     const M nG2 = ref::mul(G2, F) + ref::mul(G1, F1) * (L)2 + ref::mul(G, F2);
     const M nG1 = ref::mul(G1, F) + ref::mul(G, F1);
@@ -243,27 +256,34 @@ RefOut<R> ref_eval(const Mat<L, R::Dim> & Ms, const Mat<L, R::Dim> * V, L x, int
     G1 = nG1;
     G2 = nG2;
     G3 = nG3;
+    G4 = nG4;
   }
+  // body derivatives: Om = G^-1 dG;  with W_n = G^-1 d^n G:  dW_n = W_{n+1} - Om W_n
   const M Gi  = ref::inv(G);
-  const M Om  = ref::mul(Gi, G1);                  // body velocity (matrix form)
+  const M Om  = ref::mul(Gi, G1);
   const M W2  = ref::mul(Gi, G2);
   const M W3  = ref::mul(Gi, G3);
-  const M Om1 = W2 - ref::mul(Om, Om);             // d/dx Om
-  const M W2d = W3 - ref::mul(Om, W2);             // d/dx W2
+  const M W4  = ref::mul(Gi, G4);
+  const M Om1 = W2 - ref::mul(Om, Om);
+  const M W2d = W3 - ref::mul(Om, W2);
   const M Om2 = W2d - ref::mul(Om1, Om) - ref::mul(Om, Om1);
+  const M W3d = W4 - ref::mul(Om, W3);
+  const M Om3 = W3d - ref::mul(Om1, W2) - ref::mul(Om, W2d) - ref::mul(Om2, Om) - ref::mul(Om1, Om1) * (L)2 - ref::mul(Om, Om2);
   RefOut<R> o;
-  o.M  = G;
-  o.M1 = G1;
+  o.M = G;
   R::template vee<L>(Om, o.v);
   R::template vee<L>(Om1, o.a);
   R::template vee<L>(Om2, o.j);
+  R::template vee<L>(Om3, o.sn);
   o.Mmax  = G.maxabs();
   o.M1max = G1.maxabs();
-  o.vmax = o.amax = o.jmax = 0;
+  o.M2max = G2.maxabs();
+  o.vmax = o.amax = o.jmax = o.smax = 0;
   for (int i = 0; i < R::Dof; ++i) {
     o.vmax = std::max(o.vmax, std::fabs(o.v[i]));
     o.amax = std::max(o.amax, std::fabs(o.a[i]));
     o.jmax = std::max(o.jmax, std::fabs(o.j[i]));
+    o.smax = std::max(o.smax, std::fabs(o.sn[i]));
   }
   return o;
 }
@@ -271,6 +291,8 @@ RefOut<R> ref_eval(const Mat<L, R::Dim> & Ms, const Mat<L, R::Dim> * V, L x, int
 // ------------------------------------------------------------------ configurations
 static const double T0S[3] = {0., -7.3, 1e6};
 static const double DTS[4] = {1e-3, 0.1, 1., 7.};
+/// reduced (t0, dt) menu, index = 4*t0idx + dtidx: (0,1), (-7.3,0.1), (1e6,1e-3), (-7.3,7)
+static const int TD_DIAG[4] = {2, 5, 8, 7};
 
 struct Config
 {
@@ -310,21 +332,27 @@ inline uint64_t pow3(int e)
   for (int i = 0; i < e; ++i) r *= 3;
   return r;
 }
-/// layout of one explored space: 4 blocks (one per N), each (family x t0 x dt x extra)
+/// which part of the product is enumerated for "every sequence over the difference alphabet"
+struct SeqPolicy
+{
+  int all_maxN;    // every sequence for N <= all_maxN
+  int full_td_maxN;  // ... with all 12 (t0,dt) pairs for N <= full_td_maxN, the 4-pair menu TD_DIAG above that
+};
+/// layout of one explored space: 4 blocks (one per N); a block is (simple families x 12 (t0,dt) + all sequences x ntd) x extra
 template<int K>
 struct Layout
 {
   int Ns[4] = {K + 1, K + 2, K + 4, 30};
-  uint64_t nfam[4], nextra[4], off[5];
-  /// allseq_maxN: every sequence is enumerated for N <= allseq_maxN; extra(N): size of the extra dimension
+  uint64_t nall[4], ntd[4], nextra[4], off[5];
   template<typename F>
-  Layout(int allseq_maxN, F && extra)
+  Layout(const SeqPolicy & pol, F && extra)
   {
     off[0] = 0;
     for (int b = 0; b < 4; ++b) {
-      nfam[b]   = 10 + (Ns[b] <= allseq_maxN ? pow3(Ns[b] - 1) : 0);
+      nall[b]   = Ns[b] <= pol.all_maxN ? pow3(Ns[b] - 1) : 0;
+      ntd[b]    = Ns[b] <= pol.full_td_maxN ? 12 : 4;
       nextra[b] = uint64_t(extra(Ns[b]));
-      off[b + 1] = off[b] + nfam[b] * 12 * nextra[b];
+      off[b + 1] = off[b] + (10 * 12 + nall[b] * ntd[b]) * nextra[b];
     }
   }
   uint64_t size() const { return off[4]; }
@@ -332,13 +360,22 @@ struct Layout
   {
     int b = 0;
     while (idx >= off[b + 1]) ++b;
-    mc::Radix r(idx - off[b]);
+    uint64_t r = idx - off[b];
     Config c;
     c.N     = Ns[b];
-    c.extra = int(r.next(nextra[b]));
-    c.dt    = DTS[r.next(4)];
-    c.t0    = T0S[r.next(3)];
-    c.fam   = int(r.next(nfam[b]));
+    c.extra = int(r % nextra[b]);
+    r /= nextra[b];
+    int td;
+    if (r < 120) {
+      td    = int(r % 12);
+      c.fam = int(r / 12);
+    } else {
+      r -= 120;
+      td    = ntd[b] == 12 ? int(r % 12) : TD_DIAG[r % 4];
+      c.fam = 10 + int(r / ntd[b]);
+    }
+    c.dt = DTS[td % 4];
+    c.t0 = T0S[td / 4];
     return c;
   }
 };
@@ -364,8 +401,9 @@ template<typename G>
 struct Model
 {
   using R = Ref<G>;
-  std::vector<Mat<L, R::Dim>> Mg, V;  // V[j] = hat(v_j), v_j = g_j (-) g_{j-1}, j >= 1
-  std::vector<L> vn;                  // |v_j|_inf
+  std::vector<Mat<L, R::Dim>> Mg;
+  std::vector<VPow<R>> V;  // powers of hat(v_j), v_j = g_j (-) g_{j-1}, j >= 1
+  std::vector<L> vn;       // |v_j|_inf
   explicit Model(const std::vector<G> & g)
   {
     const size_t n = g.size();
@@ -381,7 +419,10 @@ struct Model
           vl[k] = (L)v(k);
           vn[i] = std::max(vn[i], std::fabs(vl[k]));
         }
-        V[i] = R::template hat<L>(vl);
+        V[i].V1 = R::template hat<L>(vl);
+        V[i].V2 = ref::mul(V[i].V1, V[i].V1);
+        V[i].V3 = ref::mul(V[i].V2, V[i].V1);
+        V[i].V4 = ref::mul(V[i].V3, V[i].V1);
       }
     }
   }
@@ -421,8 +462,8 @@ LibOut<G> lib_eval(const smooth::BSpline<K, G> & spl, double t, double dt)
   for (int i = 0; i < R::Dof; ++i) {
     o.v[i] = (L)vel(i) * (L)dt;
     o.a[i] = (L)acc(i) * (L)dt * (L)dt;
-    o.vraw = std::isnan(vel(i)) ? NAN : std::max(o.vraw, std::fabs(vel(i)));
-    o.araw = std::isnan(acc(i)) ? NAN : std::max(o.araw, std::fabs(acc(i)));
+    o.vraw = (std::isnan(vel(i)) || std::isnan(o.vraw)) ? NAN : std::max(o.vraw, std::fabs(vel(i)));
+    o.araw = (std::isnan(acc(i)) || std::isnan(o.araw)) ? NAN : std::max(o.araw, std::fabs(acc(i)));
     o.vmax = std::max(o.vmax, std::fabs(o.v[i]));
     o.amax = std::max(o.amax, std::fabs(o.a[i]));
   }
@@ -439,12 +480,18 @@ L vdiff(const L * a, const L * b)
   }
   return m;
 }
+inline double excess(L err, L allowance, L unit)
+{
+  if (!(err == err)) return NAN;
+  return (double)(std::max<L>(0, err - allowance) / unit);
+}
 
 /// evaluation times of a configuration. The first 5*(nint+1) entries are, for every knot k,
 /// {knot, knot-1ulp, knot+1ulp, knot-1e-9dt, knot+1e-9dt}; then interval thirds, t_min, t_max, outside.
 inline std::vector<double> make_times(int nint, double t0, double dt, double tmin, double tmax)
 {
   std::vector<double> ts;
+  ts.reserve(size_t(7 * nint + 12));
   for (int k = 0; k <= nint; ++k) {
     const double tk = t0 + double(k) * dt;
     ts.push_back(tk);
@@ -502,9 +549,8 @@ void selfchecks(const Alpha<G> & A)
   c.N = K + 2, c.fam = 5, c.t0 = 0, c.dt = 1, c.extra = 0;
   auto ctrl = build_ctrl(c, A);
   Model<G> mdl(ctrl);
-  bool ok_v = true, ok_a = true, ok_j = true, ok_c = true;
+  bool ok_v = true, ok_a = true, ok_j = true, ok_s = true, ok_c = true;
   const L h = 1.0L / 512;
-  L worst   = 0;
   for (int s = 0; s < 2; ++s) {
     for (int q = 1; q <= 2; ++q) {
       const L x = s + q / 3.0L;
@@ -514,37 +560,39 @@ void selfchecks(const Alpha<G> & A)
       auto Om  = ref::mul(ref::inv(o.M), dM);
       L vs[R::Dof];
       R::template vee<L>(Om, vs);
-      const L sc = std::max<L>(1, o.jmax);
+      const L sc = std::max<L>({1, o.jmax, o.smax});
       for (int i = 0; i < R::Dof; ++i) {
         const L as = (m2.v[i] - p2.v[i] + 8 * (p1.v[i] - m1.v[i])) / (12 * h);
         const L js = (m2.a[i] - p2.a[i] + 8 * (p1.a[i] - m1.a[i])) / (12 * h);
-        worst      = std::max({worst, std::fabs(vs[i] - o.v[i]) / sc, std::fabs(as - o.a[i]) / sc, std::fabs(js - o.j[i]) / sc});
-        if (std::fabs(vs[i] - o.v[i]) > 1e-8L * sc) ok_v = false;
-        if (std::fabs(as - o.a[i]) > 1e-8L * sc) ok_a = false;
-        if (std::fabs(js - o.j[i]) > 1e-8L * sc) ok_j = false;
+        const L ss = (m2.j[i] - p2.j[i] + 8 * (p1.j[i] - m1.j[i])) / (12 * h);
+        if (!(std::fabs(vs[i] - o.v[i]) <= 1e-8L * sc)) ok_v = false;
+        if (!(std::fabs(as - o.a[i]) <= 1e-8L * sc)) ok_a = false;
+        if (!(std::fabs(js - o.j[i]) <= 1e-8L * sc)) ok_j = false;
+        if (!(std::fabs(ss - o.sn[i]) <= 1e-8L * sc)) ok_s = false;
       }
     }
     // (c) the reference itself is C^(K-1) across the knot between spans 0 and 1
     if (s == 0) {
       RefOut<R> l = mdl.template eval<K>(1, 0), r = mdl.template eval<K>(1, 1);
-      if ((l.M - r.M).maxabs() > 1e-16L * std::max<L>(1, l.Mmax)) ok_c = false;
-      if (K >= 2 && vdiff<R::Dof>(l.v, r.v) > 1e-16L * std::max<L>(1, l.vmax)) ok_c = false;
-      if (K >= 3 && vdiff<R::Dof>(l.a, r.a) > 1e-15L * std::max<L>(1, l.amax)) ok_c = false;
+      if (!((l.M - r.M).maxabs() <= 1e-16L * std::max<L>(1, l.Mmax))) ok_c = false;
+      if (K >= 2 && !(vdiff<R::Dof>(l.v, r.v) <= 1e-16L * std::max<L>(1, l.vmax))) ok_c = false;
+      if (K >= 3 && !(vdiff<R::Dof>(l.a, r.a) <= 1e-15L * std::max<L>(1, l.amax))) ok_c = false;
     }
   }
   mc::selfcheck("reference: vel = vee(g^-1 dg/dx) by stencil", ok_v);
   mc::selfcheck("reference: acc = d vel/dx by stencil", ok_a);
   mc::selfcheck("reference: jerk = d acc/dx by stencil", ok_j);
+  mc::selfcheck("reference: snap = d jerk/dx by stencil", ok_s);
   mc::selfcheck("reference: C^(K-1) at a knot", ok_c);
 }
 
 // ------------------------------------------------------------------ space A: evaluation against the reference
 template<int K, typename G>
-void eval_space(const char * gname, const Alpha<G> & A, int allseq_maxN)
+void eval_space(const char * gname, const Alpha<G> & A, const SeqPolicy & pol)
 {
   using R = Ref<G>;
   constexpr int Dof = R::Dof;
-  const Layout<K> lay(allseq_maxN, [](int) { return 1; });
+  const Layout<K> lay(pol, [](int) { return 1; });
   mc::explore(mc::fmt("C13/eval/%s/K%d", gname, K), lay.size(), [&](mc::Case & c) {
     const Config cfg = lay.decode(c.idx);
     double cur_t     = 0;
@@ -562,8 +610,8 @@ void eval_space(const char * gname, const Alpha<G> & A, int allseq_maxN)
 
     // ---- domain
     {
-      cur_t          = t0;
-      const L tmaxr  = (L)t0 + (L)nint * (L)dt;
+      cur_t         = t0;
+      const L tmaxr = (L)t0 + (L)nint * (L)dt;
       c.judge("t_min = t0 [ulp]", std::fabs(spl.t_min() - t0) / ulp(t0 == 0 ? dt : t0), Tol::tbound);
       c.judge("t_max = t0+(N-K)dt [ulp]", (double)(std::fabs((L)spl.t_max() - tmaxr) / ulp(std::max(std::fabs(t0), (double)std::fabs(tmaxr)))),
         Tol::tbound);
@@ -573,6 +621,23 @@ void eval_space(const char * gname, const Alpha<G> & A, int allseq_maxN)
     const std::vector<double> ts = make_times(nint, t0, dt, spl.t_min(), spl.t_max());
     std::vector<LibOut<G>> lib(ts.size());
     std::vector<L> xs(ts.size()), ws(ts.size());
+    // per knot: Lipschitz data of the reference from the adjacent spans (filled when the exact knot time is visited)
+    struct KnotL
+    {
+      L m1 = 0, m2 = 0, a = 0, j = 0, sn = 0, msc = 1, vw = 1;
+      int sides = 0;
+    };
+    std::vector<KnotL> kl(size_t(nint + 1));
+    auto add_knot = [&](KnotL & q, const RefOut<R> & ro, int s) {
+      q.m1  = std::max(q.m1, ro.M1max);
+      q.m2  = std::max(q.m2, ro.M2max);
+      q.a   = std::max(q.a, ro.amax);
+      q.j   = std::max(q.j, ro.jmax);
+      q.sn  = std::max(q.sn, ro.smax);
+      q.msc = std::max(q.msc, ro.Mmax);
+      q.vw  = std::max(q.vw, mdl.template vwin<K>(s));
+      q.sides++;
+    };
 
     for (size_t it = 0; it < ts.size(); ++it) {
       const double t = ts[it];
@@ -597,21 +662,24 @@ void eval_space(const char * gname, const Alpha<G> & A, int allseq_maxN)
           nsides   = 2;
         }
       }
+      const bool knot_time = it < size_t(5 * (nint + 1)) && it % 5 == 0;
       double best[3] = {INFINITY, INFINITY, INFINITY}, bestm = INFINITY;
       for (int q = 0; q < nsides; ++q) {
         const int s = sides[q];
         const L xq  = std::clamp<L>(xc, s, s + 1);
         const RefOut<R> ro = mdl.template eval<K>(xq, s);
+        if (knot_time && std::fabs(xq - (L)(it / 5)) <= w) add_knot(kl[it / 5], ro, s);
         const L vw = std::max<L>(1, mdl.template vwin<K>(s));
-        L ev = (lo.M - ro.M).maxabs();
+        const L ev = (lo.M - ro.M).maxabs();
         L ee = vdiff<Dof>(lo.v, ro.v), ea = vdiff<Dof>(lo.a, ro.a);
         if (zero_ok) {
           ee = std::min(ee, lo.vmax);
           ea = std::min(ea, lo.amax);
         }
-        const double r0 = (double)(std::max<L>(0, ev - 2 * wa * ro.M1max) / (EPSD * std::max<L>(1, ro.Mmax)));
-        const double r1 = (double)(std::max<L>(0, ee - 2 * wa * ro.amax) / (EPSD * vw));
-        const double r2 = (double)(std::max<L>(0, ea - 2 * wa * ro.jmax) / (EPSD * vw * vw));
+        // time-conditioning allowance: 2 w sup|next derivative| over the window (first + second order term)
+        const double r0 = excess(ev, 2 * wa * (ro.M1max + wa * ro.M2max), EPSD * std::max<L>(1, ro.Mmax));
+        const double r1 = excess(ee, 2 * wa * (ro.amax + wa * ro.jmax), EPSD * vw);
+        const double r2 = excess(ea, 2 * wa * (ro.jmax + wa * ro.smax), EPSD * vw * vw);
         const double m  = std::max({std::isnan(r0) ? INFINITY : r0 / Tol::value, std::isnan(r1) ? INFINITY : r1 / Tol::vel,
           std::isnan(r2) ? INFINITY : r2 / Tol::acc});
         if (q == 0 || m < bestm) {
@@ -625,7 +693,7 @@ void eval_space(const char * gname, const Alpha<G> & A, int allseq_maxN)
         c.judge("outside: vel = end vel or 0 [eps]", best[1], Tol::vel);
         c.judge("outside: acc = end acc or 0 [eps]", best[2], Tol::acc);
       } else {
-        c.outcome(nsides == 2 ? "time: within conditioning window of an interior knot" : (x < w || x > nint - w) ? "time: at t_min/t_max" : "time: interior");
+        c.outcome(nsides == 2 ? "time: within conditioning window of an interior knot" : zero_ok ? "time: at t_min/t_max" : "time: interior");
         c.judge("value = reference [eps]", best[0], Tol::value);
         c.judge("vel = body derivative of reference [eps]", best[1], Tol::vel);
         c.judge("acc = 2nd body derivative of reference [eps]", best[2], Tol::acc);
@@ -637,17 +705,13 @@ void eval_space(const char * gname, const Alpha<G> & A, int allseq_maxN)
       }
     }
 
-    // ---- C^(K-1) across every knot: library on both sides, Lipschitz constant from the reference
+    // ---- C^(K-1) across every knot: library on both sides, Lipschitz constants from the reference
     for (int k = 0; k <= nint; ++k) {
       const bool interior = k >= 1 && k <= nint - 1;
-      L Lv = 0, Lvel = 0, Lacc = 0, Msc = 1, vw = 1;
-      for (int s = std::max(k - 1, 0); s <= std::min(k, nint - 1); ++s) {
-        const RefOut<R> ro = mdl.template eval<K>((L)k, s);
-        Lv   = std::max(Lv, ro.M1max);
-        Lvel = std::max(Lvel, ro.amax);
-        Lacc = std::max(Lacc, ro.jmax);
-        Msc  = std::max(Msc, ro.Mmax);
-        vw   = std::max(vw, mdl.template vwin<K>(s));
+      KnotL & q           = kl[size_t(k)];
+      if (q.sides < (interior ? 2 : 1)) {  // not collected in the main loop: evaluate the adjacent spans at the knot
+        q = KnotL{};
+        for (int s = std::max(k - 1, 0); s <= std::min(k, nint - 1); ++s) add_knot(q, mdl.template eval<K>((L)k, s), s);
       }
       for (int pair = 0; pair < 2; ++pair) {
         const size_t im = size_t(5 * k + 1 + 2 * pair), ip = im + 1;
@@ -655,14 +719,14 @@ void eval_space(const char * gname, const Alpha<G> & A, int allseq_maxN)
         const L gap     = std::fabs(xs[ip] - xs[im]) + ws[ip] + ws[im];
         if (ts[ip] == ts[im]) c.outcome("continuity: delta below 1 ulp (same time)");
         const L ev = (lib[ip].M - lib[im].M).maxabs();
-        c.judge("C0: value agrees across knot [eps]", (double)(std::max<L>(0, ev - 2 * gap * Lv) / (EPSD * Msc)), Tol::cont);
+        c.judge("C0: value agrees across knot [eps]", excess(ev, 2 * gap * (q.m1 + gap * q.m2), EPSD * q.msc), Tol::cont0);
         if (interior && K >= 2) {
           const L e = vdiff<Dof>(lib[ip].v, lib[im].v);
-          c.judge("C1: vel agrees across knot [eps]", (double)(std::max<L>(0, e - 2 * gap * Lvel) / (EPSD * vw)), Tol::cont);
+          c.judge("C1: vel agrees across knot [eps]", excess(e, 2 * gap * (q.a + gap * q.j), EPSD * q.vw), Tol::cont1);
         }
         if (interior && K >= 3) {
           const L e = vdiff<Dof>(lib[ip].a, lib[im].a);
-          c.judge("C2: acc agrees across knot [eps]", (double)(std::max<L>(0, e - 2 * gap * Lacc) / (EPSD * vw * vw)), 4 * Tol::cont);
+          c.judge("C2: acc agrees across knot [eps]", excess(e, 2 * gap * (q.j + gap * q.sn), EPSD * q.vw * q.vw), Tol::cont2);
         }
       }
     }
@@ -671,14 +735,16 @@ void eval_space(const char * gname, const Alpha<G> & A, int allseq_maxN)
 
 // ------------------------------------------------------------------ space B: local support
 template<int K, typename G>
-void local_space(const char * gname, const Alpha<G> & A, int allseq_maxN)
+void local_space(const char * gname, const Alpha<G> & A, const SeqPolicy & pol, bool all_perts_N30)
 {
   using R = Ref<G>;
   constexpr int Dof = R::Dof;
-  const Layout<K> lay(allseq_maxN, [](int N) { return 3 * N; });
+  auto nperts = [=](int N) { return (N == 30 && !all_perts_N30) ? 1 : 3; };
+  const Layout<K> lay(pol, [&](int N) { return nperts(N) * N; });
   mc::explore(mc::fmt("C13/local/%s/K%d", gname, K), lay.size(), [&](mc::Case & c) {
     const Config cfg = lay.decode(c.idx);
-    const int i = cfg.extra / 3, ip = cfg.extra % 3;
+    const int np = nperts(cfg.N);
+    const int i = cfg.extra / np, ip = np == 1 ? 1 : cfg.extra % np;
     double cur_t = 0;
     c.desc = [&] { return cdesc<K>(gname, cfg, &cur_t) + mc::fmt(" moved ctrl %d by p%d", i, ip); };
     c.param("K", K);
@@ -726,11 +792,11 @@ void local_space(const char * gname, const Alpha<G> & A, int allseq_maxN)
 
 // ------------------------------------------------------------------ space C: left equivariance
 template<int K, typename G>
-void equiv_space(const char * gname, const Alpha<G> & A, int allseq_maxN)
+void equiv_space(const char * gname, const Alpha<G> & A, const SeqPolicy & pol)
 {
   using R = Ref<G>;
   constexpr int Dof = R::Dof;
-  const Layout<K> lay(allseq_maxN, [](int) { return 3; });
+  const Layout<K> lay(pol, [](int) { return 3; });
   mc::explore(mc::fmt("C13/equiv/%s/K%d", gname, K), lay.size(), [&](mc::Case & c) {
     const Config cfg = lay.decode(c.idx);
     const int ih = cfg.extra;
@@ -743,6 +809,11 @@ void equiv_space(const char * gname, const Alpha<G> & A, int allseq_maxN)
     if (cfg.duplicate_of_simple()) c.trivial();
     std::vector<G> ctrl = build_ctrl(cfg, A);
     const smooth::BSpline<K, G> base(cfg.t0, cfg.dt, ctrl);
+    L vmaxall = 1;
+    for (size_t i = 1; i < ctrl.size(); ++i) {
+      const smooth::Tangent<G> v = smooth::rminus(ctrl[i], ctrl[i - 1]);
+      for (int k = 0; k < Dof; ++k) vmaxall = std::max(vmaxall, (L)std::fabs(v(k)));
+    }
     L csc = 1;
     for (auto & g : ctrl) {
       g   = smooth::composition(A.h[ih], g);
@@ -753,11 +824,6 @@ void equiv_space(const char * gname, const Alpha<G> & A, int allseq_maxN)
     const auto Mha = ref::cabs(Mh);
     const int nint = cfg.N - K;
     const std::vector<double> ts = make_times(nint, cfg.t0, cfg.dt, base.t_min(), base.t_max());
-    L vmaxall = 1;
-    {
-      const Model<G> mdl(base.ctrl_pts());
-      for (auto v : mdl.vn) vmaxall = std::max(vmaxall, v);
-    }
     for (double t : ts) {
       cur_t = t;
       const LibOut<G> a = lib_eval<K, G>(base, t, cfg.dt), b = lib_eval<K, G>(left, t, cfg.dt);
@@ -777,20 +843,26 @@ void run_one(const char * gname)
 {
   const Alpha<G> A;
   selfchecks<K, G>(A);
-  // every sequence over the 3-letter difference alphabet: thorough N <= K+4 (as designed); quick: N <= K+2 for the
-  // reference comparison and equivariance, N = K+1 for locality (the index structure does not depend on the letters)
-  const bool th = mc::thorough();
+  const bool th     = mc::thorough();
   const bool timing = getenv("C13_TIMING") != nullptr;
-  auto lap = [&, t = std::chrono::steady_clock::now()](const char * what) mutable {
+  auto lap          = [&, t = std::chrono::steady_clock::now()](const char * what) mutable {
     const auto n = std::chrono::steady_clock::now();
     if (timing) fprintf(stderr, "  [C13 timing] %s K=%d %s %.2fs\n", gname, K, what, std::chrono::duration<double>(n - t).count());
     t = n;
   };
-  eval_space<K, G>(gname, A, th ? K + 4 : (K <= 3 ? K + 4 : K + 2));
+  // "every sequence over the 3-letter difference alphabet":
+  //   thorough: N <= K+4 as designed; all 12 (t0,dt) pairs except for N = K+4 with K >= 5 (4-pair menu);
+  //             locality N <= K+2 (the index structure does not depend on the letters)
+  //   quick   : N <= K+2 (K+4 for K <= 3, K+1 for K = 6) with the 4-pair (t0,dt) menu; locality N = K+1 for K <= 3
+  // The ten simple families (constant, constant difference, alternating) always get the full product.
+  const SeqPolicy ev = th ? SeqPolicy{K + 4, K >= 5 ? K + 2 : K + 4} : SeqPolicy{K <= 3 ? K + 4 : (K == 6 ? K + 1 : K + 2), 0};
+  const SeqPolicy eq = th ? SeqPolicy{K + 4, K >= 5 ? K + 2 : K + 4} : SeqPolicy{K + 1, 0};
+  const SeqPolicy lc = th ? SeqPolicy{K + 2, K + 2} : SeqPolicy{K <= 3 ? K + 1 : 0, 0};
+  eval_space<K, G>(gname, A, ev);
   lap("eval");
-  equiv_space<K, G>(gname, A, th ? K + 4 : K + 1);
+  equiv_space<K, G>(gname, A, eq);
   lap("equiv");
-  local_space<K, G>(gname, A, th ? K + 2 : K + 1);
+  local_space<K, G>(gname, A, lc, th);
   lap("local");
 }
 template<typename G>
